@@ -469,6 +469,8 @@ RECREATE_HARNESS(recreate_fill_alloc, recreate_fill_alloc(&a, d, al, A))
 
 PROBE_PRE = r'''
 template <typename It, int B = byte_to_memunit<It>::value> struct bitfield_bytes { static const long value = 0; };
+template <typename V, int B = byte_to_memunit<typename V::x_iterator>::value> struct chan_layout { static const long align = (long)alignof(typename channel_type<V>::type), size = (long)sizeof(typename channel_type<V>::type); };
+template <typename V> struct chan_layout<V, 8> { static const long align = 1, size = 1; };      /* bit-aligned: channels are bit ranges, no byte alignment */
 template <typename It> struct bitfield_bytes<It, 8> { static const long value = (long)sizeof(typename std::iterator_traits<It>::reference::bitfield_t); };
 '''
 PROBE = r'''
@@ -477,7 +479,7 @@ PROBE = r'''
   P_VAL("PIXEL_STEP", (long long)memunit_step(x_iterator()));
   P_VAL("BYTE_TO_MEMUNIT", (long long)byte_to_memunit<x_iterator>::value);
   P_VAL("NUM_CHANNELS", (long long)num_channels<view_t>::value);
-  P_VAL("CHANNEL_ALIGN", (long long)alignof(channel_type<view_t>::type)); P_VAL("CHANNEL_SIZE", (long long)sizeof(channel_type<view_t>::type));
+  P_VAL("CHANNEL_ALIGN", (long long)chan_layout<view_t>::align); P_VAL("CHANNEL_SIZE", (long long)chan_layout<view_t>::size);
   P_VAL("IS_PLANAR", (long long)is_planar<view_t>::value);
   P_VAL("ACCESS_SPAN", (long long)ACCESS_SPAN_EXPR);
   P_VAL("BIT_ALIGNED", (int)(byte_to_memunit<x_iterator>::value == 8)); P_VAL("BITFIELD_BYTES", (long long)bitfield_bytes<x_iterator>::value);
